@@ -388,7 +388,10 @@ def _common():
             "decl": st.sampled_from(["none", "utf8", "plain", "standalone"]),
             "cs": st.sampled_from(["utf-8", None]),
             "enc": st.sampled_from(["utf-8", "utf-8", "utf-8", "utf-16"]),
-            "root": st.sampled_from(["x", "actual"])}
+            "root": st.sampled_from(["x", "actual"]),
+            # the protocol was built with the documented encoding= option (unrelated to the
+            # parser's safety options, which stay at their defaults)
+            "penc": st.sampled_from([None, None, None, "utf-8"])}
 
 
 def _kind_params(kind):
@@ -456,8 +459,8 @@ class _Apps(object):
         self.cache = {}
         self.calls = []
 
-    def get(self, prot, validator):
-        key = (prot, validator)
+    def get(self, prot, validator, penc=None):
+        key = (prot, validator, penc)
         if key in self.cache:
             return self.cache[key]
         from spyne import Application, rpc, Service, Unicode, ComplexModel, Array
@@ -491,8 +494,9 @@ class _Apps(object):
             "echo_arr": rpc(Array(Unicode), _args=["l"], _returns=Array(Unicode))(echo_arr),
         })
         cls = {"xml": XmlDocument, "soap11": Soap11, "soap12": Soap12}[prot]
-        app = Application([Svc], tns=tns, name="C17App_%s_%s" % (prot, validator),
-                          in_protocol=cls(validator=validator), out_protocol=cls())
+        kw = {} if penc is None else {"encoding": penc}
+        app = Application([Svc], tns=tns, name="C17App_%s_%s_%s" % (prot, validator, penc),
+                          in_protocol=cls(validator=validator, **kw), out_protocol=cls())
         self.cache[key] = (app, WsgiApplication(app))
         return self.cache[key]
 
@@ -534,7 +538,7 @@ def _swa(envelope, cs):
 def _execute(apps, case, d):
     """-> dict(escaped, code, normal, args, reply, status)"""
     from .. import drive, findings as F
-    app, wapp = apps.get(case["prot"], case["validator"])
+    app, wapp = apps.get(case["prot"], case["validator"], (case.get("p") or {}).get("penc"))
     del apps.calls[:]
     cs = d.cs
     r = {"escaped": None, "code": None, "normal": False, "status": None, "reply": b""}
